@@ -269,6 +269,8 @@ def run(res, tier):
         gen_kw=dict(max_len=3, max_depth=2, allow=ALLOW,
                     need=lambda top: not is_F14(dict(chain=top[1]), None)))
     n3, bad3 = dataframe_clause(rng)
+    n_k, bad_k = direct.extra_kernel_checks(rng, 'names')
+    n3 += n_k; bad3 = bad3 + [dict(b, test='names_kernel_approximations') for b in bad_k]
     res.coverage.update(
         evaluations=len(batch.meta) + ev_ + n3, distinct_nontrivial=distinct + ev_ + n3,
         rule=('M2: get_feature_names_out strings (plain and latex, episode_feature None/True/False, symbols_only) of random '
